@@ -81,7 +81,10 @@ def gen_ruler(rng: random.Random) -> dict:
             kind = rng.choice(["enable", "disable", "enableOnly", "enable", "disable"])
             names, form = _gen_names(rng, registered, p_unknown)
             ops.append([kind, names, rng.random() < 0.3, form])
-    return {"kind": "ruler", "ops": ops, "shared_fns": share}
+    # sparse observation: the reporting calls (get_all_rules / get_active_rules) are themselves calls of the history - a
+    # harness that asks after every step would flush any memo behind them; here they happen only at 'get' steps and
+    # after failed calls
+    return {"kind": "ruler", "ops": ops, "shared_fns": share, "sparse": rng.random() < 0.35}
 
 
 class _Model:
@@ -189,6 +192,10 @@ def run_ruler(rec: dict, res: RunResult) -> None:
                 res.fail("COHERENCE", f"op {k}: applied main chain {[r['name'] for r in on_recs]} != reported active "
                                       f"{reported} (after {last_mut})", last_mut)
                 return
+            if allr != model.all():
+                res.fail("SET_SEMANTICS", f"op {k}: get_all_rules() = {allr}, model {model.all()} (after {last_mut})",
+                         last_mut)
+                return
         else:
             main_names = [fn_name[i] for i in main_ids]
             if main_names != reported:
@@ -236,7 +243,11 @@ def run_ruler(rec: dict, res: RunResult) -> None:
             continue
         if compiled:
             res.nontrivial = True
-        before_all, before_active = ruler.get_all_rules(), ruler.get_active_rules()
+        sparse = bool(rec.get("sparse")) and not dup_mode
+        if sparse:
+            before_all, before_active = model.all(), model.active()
+        else:
+            before_all, before_active = ruler.get_all_rules(), ruler.get_active_rules()
         raised = None
         ret = None
         # ---- apply to the implementation
@@ -276,7 +287,12 @@ def run_ruler(rec: dict, res: RunResult) -> None:
         except Exception as e:  # noqa: BLE001
             raised = e
         last_mut = f"{kind}:{'raised' if raised else 'ok'}"
-        after_all, after_active = ruler.get_all_rules(), ruler.get_active_rules()
+        observed = (not sparse) or raised is not None
+        if observed:
+            after_all, after_active = ruler.get_all_rules(), ruler.get_active_rules()
+        else:
+            after_all = after_active = None      # not asked: the model carries the expectation to the next 'get'
+            res.count("steps_without_observation")
         res.events.append([k, kind, type(raised).__name__ if raised else "ok", after_all, after_active])
         res.steps += 1
         if raised is not None:
@@ -344,7 +360,7 @@ def run_ruler(rec: dict, res: RunResult) -> None:
             else:
                 res.fail("SET_SEMANTICS", f"op {k} {op} raised and left all={after_all} active={after_active}; "
                                           f"accepted: unchanged {atomic} or prefix-applied {partial}", last_mut)
-        else:
+        elif observed:
             if (after_all, after_active) != (model.all(), model.active()):
                 res.fail("SET_SEMANTICS", f"op {k} {op}: reported all={after_all} active={after_active}, "
                                           f"model all={model.all()} active={model.active()}", last_mut)
@@ -584,7 +600,7 @@ def gen_facade(rng: random.Random) -> dict:
     for _ in range(n):
         ops.append(one())
     probes = [docgen.document(rng, 3), rng.choice(PLUGIN_DOCS), rng.choice(PLUGIN_DOCS)]
-    return {"kind": "facade", "cfg": cfg, "ops": ops, "probes": probes}
+    return {"kind": "facade", "cfg": cfg, "ops": ops, "probes": probes, "sparse": rng.random() < 0.35}
 
 
 def _predict_many(allr, active, names, value, ignore, only=False):
@@ -613,12 +629,15 @@ def run_facade(rec: dict, res: RunResult) -> None:
     preset_by_name = {"commonmark": P.commonmark.make, "zero": P.zero.make, "js-default": P.js_default.make,
                       "default": P.default.make, "gfm-like": P.gfm_like.make}
 
+    sparse = bool(rec.get("sparse"))
+    known: list = [None]      # sparse observation: the state the model predicts while nobody asks the instance
+
     def reported():
         return md.get_all_rules(), md.get_active_rules()
 
     def supported():
         # C01's "supported configuration": the fallback and pipeline rules are on (else no progress guarantee)
-        act = md.get_active_rules()
+        act = known[0][1] if (sparse and known[0] is not None) else md.get_active_rules()
         return ({"normalize", "block", "inline", "text_join"} <= set(act["core"]) and "paragraph" in act["block"]
                 and "text" in act["inline"])
 
@@ -631,6 +650,10 @@ def run_facade(rec: dict, res: RunResult) -> None:
         names = [getattr(f, "rule_name", None) for f in main]
         rep = md.get_active_rules()[which]
         res.events.append([k, "check", which, chain, names, [getattr(f, "rule_name", None) for f in applied]])
+        if sparse and known[0] is not None and rep != known[0][1][which]:
+            res.fail("SET_SEMANTICS", f"op {k}: get_active_rules()[{which!r}] = {rep} but the calls so far give "
+                                      f"{known[0][1][which]} (after {last_mut})", last_mut)
+            return
         if names != rep:
             res.fail("COHERENCE", f"op {k}: {which} chain applies {names} but get_active_rules() reports {rep} "
                                   f"(after {last_mut})", last_mut)
@@ -663,10 +686,12 @@ def run_facade(rec: dict, res: RunResult) -> None:
             return
         if kind == "reset_rules":
             entry = md.get_active_rules()
+            known[0] = (md.get_all_rules(), copy.deepcopy(entry))
             with md.reset_rules():
                 for j, sub in enumerate(op[1]):
                     apply(sub, f"{k}.{j}", depth + 1)
             last_mut = "reset_rules:exit"
+            known[0] = None
             if not res.violation and md.get_active_rules() != entry:
                 res.fail("SET_SEMANTICS", f"op {k}: reset_rules (normal exit) left {md.get_active_rules()} "
                                           f"instead of the rules on entry {entry}", last_mut)
@@ -674,7 +699,10 @@ def run_facade(rec: dict, res: RunResult) -> None:
             return
         if compiled:
             res.nontrivial = True
-        b_all, b_act = reported()
+        if sparse and known[0] is not None:
+            b_all, b_act = copy.deepcopy(known[0])
+        else:
+            b_all, b_act = reported()
         raised = None
         exp_all, exp_act, exp_raise = copy.deepcopy(b_all), copy.deepcopy(b_act), False
         unconstrained = False
@@ -748,7 +776,16 @@ def run_facade(rec: dict, res: RunResult) -> None:
         except Exception as e:  # noqa: BLE001
             raised = e
         last_mut = f"{kind if kind != 'ruler' else op[2]}:{'raised' if raised else 'ok'}"
+        if sparse and raised is None and not exp_raise and not unconstrained:
+            # nobody asks: the prediction is carried to the next observation ('check' op, failed call, end of history)
+            known[0] = (exp_all, exp_act)
+            res.count("steps_without_observation")
+            res.events.append([k, kind, "ok", None])
+            res.steps += 1
+            compiled = False
+            return
         a_all, a_act = reported()
+        known[0] = (a_all, a_act)
         res.events.append([k, kind, type(raised).__name__ if raised else "ok", a_act])
         res.steps += 1
         if raised is not None:
@@ -785,6 +822,11 @@ def run_facade(rec: dict, res: RunResult) -> None:
         if res.violation:
             return
     rep_all, rep_act = reported()
+    if sparse and known[0] is not None and (rep_all, rep_act) != tuple(known[0]):
+        res.fail("SET_SEMANTICS", f"end of history: reported all/active {rep_act} differ from what the calls so far give "
+                                  f"{known[0][1]} (after {last_mut})", last_mut)
+        return
+    known[0] = None
     if not supported():
         res.count("probes_skipped_fallback_rules_off")
         return
@@ -861,7 +903,8 @@ class C11(Engine):
                   "harness_supplied": ["synthetic rule functions", "pass-through recording wrappers around built-in rules",
                                        "marker plugins (@@ block, @ inline, core, inline2)"],
                   "stub": [], "simulated": ["the history of calls incl. the calls that raise half-way"]}
-    expected_probes = ["failed_call_after_compiled_cache", "enableOnly_failed_midway", "duplicate_name_ops",
+    expected_probes = ["steps_without_observation", "same_function_registered_under_two_names",
+                       "failed_call_after_compiled_cache", "enableOnly_failed_midway", "duplicate_name_ops",
                        "at_changed_alt", "configure_failed_midway", "facade_missed_names"]
 
     def budget(self, tier):
